@@ -14,7 +14,7 @@ def cells_from_tlc(sc):
     if not m:
         raise vlib.Inconclusive('TLC did not print the cell set:\n' + p.stdout[-1500:])
     val = tlaval.parse('<<"CELLS",' + m.group(1) + '>>')
-    return [{'method': c[0], 'mode': c[1], 'inbuf': c[2], 'need': c[3], 'rep': c[4]} for c in val[1]]
+    return [{'method': c[0], 'mode': c[1], 'inbuf': c[2], 'need': c[3], 'rep': c[4], 'hist': c[5]} for c in val[1]]
 
 
 def main(pid, tier, replay_path=None):
@@ -94,20 +94,37 @@ def main(pid, tier, replay_path=None):
                 if kf:
                     known_hit[kf['id']] = kf
                     continue
-                key = (c['method'], c['mode'], c['inbuf'], c['need'], c['rep'], rule)
+                key = (c['method'], c['mode'], c['inbuf'], c['need'], c['rep'], c['hist'], rule)
                 if key in seen:
                     continue
                 seen.add(key)
                 vlib.log('violation %s: %s' % (rule, json.dumps(c)))
                 if len(violations) < 8:
-                    violations.append(vlib.save_replay(pid, '%s_%d' % (tier, len(violations)), {'property': pid, 'rule': rule, 'cell': {k: c[k] for k in ('method', 'mode', 'inbuf', 'need', 'rep')}, 'result': c}))
+                    violations.append(vlib.save_replay(pid, '%s_%d' % (tier, len(violations)), {'property': pid, 'rule': rule, 'cell': {k: c[k] for k in ('method', 'mode', 'inbuf', 'need', 'rep', 'hist')}, 'result': c}))
+            # Close/Writer/Reader calls racing a close (blocked flush, timed reads) under the controlled scheduler
+            if not replay_path:
+                seed = vlib.seed()
+                scs = conn.gen_scenarios('flush', 500 if tier == 'quick' else 8000, seed) + conn.gen_scenarios('close', 300 if tier == 'quick' else 5000, seed) \
+                    + conn.gen_scenarios('read', 300 if tier == 'quick' else 5000, seed)
+                cres, ccr = conn.run_scenarios(sc, binary, scs, 'c', procs=12)
+                cvs, cn, cst = conn.validate(sc, cres, [s['id'] for s in scs], 'c')
+                cby = {s['id']: s for s in scs}
+                for v in cvs:
+                    if v['rule'].startswith(pid + '.') and len(violations) < 8:
+                        r = cres[v['scenario']]
+                        s0 = dict(cby[v['scenario']]); s0['strategy'], s0['plan'] = 'plan', r['info']['taken']
+                        violations.append(vlib.save_replay(pid, '%s_c%d' % (tier, len(violations)), {'property': pid, 'rule': v['rule'], 'line': v['line'], 'scenario': s0, 'events': r['events']}))
+                        vlib.log('violation %s in %s' % (v['rule'], v['scenario']))
+                conn_runs = len(cres)
+            else:
+                conn_runs = 0
             outs = {}
             for c in run:
                 outs[c['out'].split(':')[0]] = outs.get(c['out'].split(':')[0], 0) + 1
-            cov = {'evaluations': len(run), 'distinct_nontrivial': len({(c['method'], c['mode'], c['inbuf'], c['need'], c['rep']) for c in run}),
+            cov = {'evaluations': len(run), 'distinct_nontrivial': len({(c['method'], c['mode'], c['inbuf'], c['need'], c['rep'], c['hist']) for c in run}),
                    'rule': 'every cell of AfterClose!Cells (method x close mode x buffered input x need x repetition), enumerated by TLC from the spec, executed on a real '
                            'connection; all cells are non-trivial (each calls the API on a connection whose close has completed); distinct = distinct cells',
-                   'samples': run[:3], 'exhaustive': True, 'cells_in_spec': len(cells), 'cells_not_set_up': len(setup), 'outcomes': outs,
+                   'samples': run[:3], 'exhaustive': True, 'cells_in_spec': len(cells), 'controlled_scenarios_with_racing_close': conn_runs, 'cells_not_set_up': len(setup), 'outcomes': outs,
                    'states': (st[1] if st else len(run)), 'transitions': (st[0] if st else len(run)), 'traces_validated_against_impl': len(run),
                    'known_findings_matched': sorted(known_hit), 'spec_modules': vlib.spec_hashes(['AfterClose.tla', 'TraceAfterClose.tla'])}
             vlib.write_evidence(pid, tier, 'fault_enumeration', cov, time.time() - t0, len(violations),
